@@ -35,7 +35,7 @@ def name_map(d):
     cn = [x["name"] for x in certv2.default_spec(d)["x509"]]
     m = {"x%d" % (i + 1): cn[i] for i in range(d)}
     m.update({"att": "attestation", "quote": "quote", "spare": "spare_ca", "ghost": "ghost_ca",
-              ROOT: ROOT, "other": "other", "wrong": "wrong", "nokey": "nokey"})
+              ROOT: ROOT, "other": "other", "wrong": "wrong", "nokey": "nokey", "foreign": "foreign"})
     return m
 
 
@@ -46,6 +46,8 @@ def orig_parent(n, d, spare_kind):
         return "x%d" % d
     if n == "spare":
         return ROOT if spare_kind == "fresh" or d == 1 else "x%d" % (d - 1)
+    if n == ROOT:                 # an embedded self-signed root certificate
+        return ROOT
     i = int(n[1:])
     return ROOT if i == 1 else "x%d" % (i - 1)
 
@@ -96,7 +98,7 @@ def plans_for(b, rng, nflip):
         sp["quote"]["bind"] = rng.choice(("ok", "ok", "ok_tail"))
         sp["root"] = {"curve": "P256", "time": "Valid"}
         sp["rot"] = rng.choice(("right", "right", "samekey")) if b["rot"]["key"] == ROOT \
-            else ("fresh" if b["rot"]["key"] == "wrong" else "top")
+            else {"wrong": "fresh", "foreign": "foreign"}.get(b["rot"]["key"], "top")
         if spare_kind != "none":
             ex = {"name": m["spare"], "parent": m[orig_parent("spare", d, spare_kind)],
                   "time": "Valid", "curve": "P256", "sig": "parent"}
@@ -109,8 +111,21 @@ def plans_for(b, rng, nflip):
             if e["by"] != op:
                 sp["reparent"][cn] = m[e["by"]]
             sigbad = e["sigBy"] == "other"
-            if e["kind"] == "x509":
+            if n == ROOT:
+                # a root certificate shipped inside the certificate under the reserved root name
+                sp["embed"] = {"kind": "genuine" if e["key"] == ROOT else "foreign", "time": e["time"],
+                               "sig": "self"}
+                if sigbad:
+                    flippable = True
+                    if flip_mode:
+                        flips.append({"el": cn, "field": "message",
+                                      "region": rng.choice(X509_FLIP_REGIONS)})
+                    else:
+                        sp["embed"]["sig"] = "other"
+            elif e["kind"] == "x509":
                 xs = sp["extra"][0] if n == "spare" else sp["x509"][int(n[1:]) - 1]
+                if e["sigBy"] == "foreign":
+                    xs["sig"] = "foreign"       # the chain hangs from the foreign root
                 xs["time"] = e["time"]
                 if e["curve"] == "Other" and n == "spare":
                     xs["curve"] = "P384"          # (a twin shows the curve of the key it shares)
@@ -324,13 +339,24 @@ def defects_of(abstract):
     out = []
     for n, e in sorted(cert.items()):
         k = e["kind"]
-        by = cert.get(e["by"])
+        # the certifier of an element signed by the root authority is the root of trust GIVEN to the
+        # validator, never an element of that name inside the certificate
+        by = cert.get(e["by"]) if e["by"] != ROOT else None
+        if n == ROOT:
+            out.append("embedded-root=%s" % ("genuine" if e["key"] == ROOT else "foreign"))
+            if e["time"] != "Valid":
+                out.append("embedded-root:time=%s" % e["time"])
+            if e["sigBy"] != e["key"]:
+                out.append("embedded-root:sig=bad")
+            continue
         if k == "x509":
             if e["time"] != "Valid":
                 out.append("x509:time=%s" % e["time"])
             if e["curve"] != "P256":
                 out.append("x509:curve=Other")
-        if e["sigBy"] == "other":
+        if e["sigBy"] == "foreign":
+            out.append("x509:issued-by-foreign-root" + ("" if e["by"] == ROOT else "+reparent"))
+        elif e["sigBy"] == "other":
             out.append("%s:sig=bad" % k)
         elif by is not None and e["sigBy"] != by["key"]:
             out.append("%s:reparent->%s" % (k, by["kind"]))
@@ -343,7 +369,8 @@ def defects_of(abstract):
         if k == "attkey" and not e["keyValid"]:
             out.append("attkey:key=invalid")
     if abstract["rot"]["key"] != ROOT:
-        out.append("rot=wrong" if abstract["rot"]["key"] == "wrong" else "rot=top-element")
+        out.append({"wrong": "rot=wrong", "foreign": "rot=foreign-root"}.get(abstract["rot"]["key"],
+                                                                            "rot=top-element"))
     if abstract["rot"]["curve"] != "P256":
         out.append("rot:curve=Other")
     return sorted(set(out))
@@ -407,6 +434,14 @@ def random_plan(rng):
         n = rng.choice(allnames[:d + 2])
         sp["reparent"][n] = rng.choice(allnames + [ROOT, "nobody"])
     sp["rot"] = rng.choice(("fresh", "top")) if bad() else rng.choice(("right", "samekey"))
+    if rng.random() < 0.25:
+        sp["embed"] = {"kind": rng.choice(("genuine", "foreign")),
+                       "time": rng.choice(("Valid", "Valid", "Expired", "NotYet")),
+                       "sig": rng.choice(("self", "self", "other"))}
+        if rng.random() < 0.4 and sp["x509"][0].get("sig", "parent") == "parent":
+            sp["x509"][0]["sig"] = "foreign"
+        if rng.random() < 0.4:
+            sp["rot"] = rng.choice(("foreign", "fresh", "right"))
     sp["shuffle"] = rng.random() < 0.5
     sp["pem_newlines"] = rng.random() < 0.3
     flips = []
